@@ -21,19 +21,19 @@ chk('C12', 'exploration',
 chk('C14', 'exploration',
     'Ground-truth oracle: generated note extents (all name/descriptor residues, header-only final note, colliding foreign-owner types, GNU '
     'and core descriptors) in real images are read through the section and the segment front end with the shared stream repositioned '
-    'at every yield; order, fields, decoded descriptors, offsets, padded sizes, exact tiling of the extent and view equality are compared.',
+    'at every yield; order, fields, decoded descriptors, offsets, padded sizes, exact tiling of the extent and view equality are compared. A second kind reads one file object through overlapping views (a PT_NOTE segment over two or three adjacent note sections, a second segment over the last one) in random order, every view several times, abandoned walks included, each against the encoded notes',
     'Generator independent of elftools; type names expected from the table selected by e_type; x86/aarch64 property values 4 bytes.',
     'ground-truth generator oracle + stream-position poisoning at generator yields + conservation check over offsets', 'DESIGN.md section 4 C14')
 chk('C15', 'exploration',
     'Ground-truth oracle: generated verdef/verneed/versym sections (dense, gapped with garbage, interleaved out of order; arbitrary '
     'indices incl. hidden bit) in real images; entries, auxiliary chains, names, index resolution incl. misses, has_indexes and versym '
-    'pairing are compared under nested, outer-first (lazy auxiliary iterators consumed later) and partial consumption with stream poisoning.',
+    'pairing are compared under nested, outer-first (lazy auxiliary iterators consumed later) and partial consumption with stream poisoning. A fourth kind holds a definition and a need section whose sh_link name string tables of their own (same names, other offsets), created and walked in either order',
     'Only forward displacements are encodable; indices unique among definitions and non-zero requirement auxiliaries.',
     'ground-truth generator oracle + stream-position poisoning + lazy-iterator consumption patterns', 'DESIGN.md section 4 C15')
 chk('C20', 'exploration',
     'Ground-truth oracle for generated attribute sections (ARM, RISC-V; several subsections/sub-subsections) under four consumption '
     'patterns with stream poisoning at every yield; ground truth for generated .ARM.exidx/.ARM.extab pairs over all prel31 displacement '
-    'classes and nine entry shapes; reference EHABI disassembler over all 65536 (opcode, operand) pairs plus random sequences.',
+    'classes and nine entry shapes; reference EHABI disassembler over all 65536 (opcode, operand) pairs plus random sequences. Every attribute case visits the same section, subsection and sub-subsection objects a second time after the pattern ran (a walk given up, then a full walk, counts and lists)',
     'Tag kinds and the opcode table transcribed from the ARM ABI documents; register-list text as llvm-readobj prints it.',
     'ground-truth generators + reference disassembler + consumption-pattern and stream-poisoning monitors', 'DESIGN.md section 4 C20')
 chk('C04', 'exploration',
@@ -127,7 +127,8 @@ chk('C10', 'model_checking',
     'breadth-first search over sequences of a 35-55 operation alphabet on small generated DWARF sets with deduplication on the abstract '
     'cache state (states restored by replaying the shortest path on a fresh object; replay determinism checked): every operation applied '
     'to every distinct state up to the bound; the tiny files close their frontier. (b) Random histories of 60-400 operations on corpus '
-    'binaries and generated files at the DWARF and the ELF level. Streams are repositioned before every operation; cache invariants '
+    'binaries and generated files at the DWARF and the ELF level (every other ELF history re-uses the section and segment objects it was handed, '
+    'so that what an object remembers from an earlier walk meets the next query). Streams are repositioned before every operation; cache invariants '
     '(sorted, duplicate-free, parallel unit/entry caches; cached parent/terminator links vs ground truth; section-name map) are asserted '
     'after every operation.',
     'Abstract state = hash of private cache attributes (read only); exhaustive only over abstract states within the depth/state bound.',
@@ -140,7 +141,8 @@ chk('C11', 'exploration',
     'renamed), behind .gnu_debuglink (right/wrong CRC, file-name lengths of every residue mod 4), with .gnu_debugaltlink/.debug_sup links '
     '(with and without loader, follow_links on/off) and by objcopy as a second producer; the complete dump of the resulting DWARF info '
     'must be identical across containers, alt forms must resolve into the supplementary file, has_dwarf_info(strict) and the three '
-    'rejections are checked.',
+    'rejections are checked; half of the cases also put the stripped file and its debug file on disk, follow the link by path, change the debug '
+    'file in place (same size) and follow it again in the same process (must be rejected), then restore it (must be accepted).',
     'Containers keep class, byte order, machine and .eh_frame address; objcopy/gcc used when present (skipped otherwise).',
     'differential oracle across container re-encodings (own writer + binutils as second producer)', 'DESIGN.md section 4 C11')
 chk('C18', 'translation_validation',
@@ -152,6 +154,7 @@ chk('C18', 'translation_validation',
     'DW_CFA, DW_TAG, DW_AT by class, DW_FORM, DW_LANG/ATE/... values, DW_UT, ARM and RISC-V build attributes - in the machine/OS context '
     'the entry belongs to; and generated linker/compiler-shaped files (version sections, notes, symbol tables, relocation sections, '
     'segment layouts, hex/string dumps, line tables v2-5, call-frame tables, aranges/pubnames/pubtypes, location and range lists). '
+    'A further kind dumps some 70 files in one interpreter through the clone\'s main() and requires every text to equal that of a process of its own. '
     'Decides equality on exactly the pairs run; says nothing about options or table entries not driven.',
     'Oracle is GNU readelf 2.40 on the image (the project pins 2.41): pairs where 2.40 is known to print an older layout are excluded and '
     'counted; a description entry for which GNU itself prints a placeholder is unjudged and counted; oracle_gaps_C18.json lists the '
